@@ -596,6 +596,7 @@ namespace chaiscript {
       bool read_exponent_and_suffix() noexcept {
         // Support a form of scientific notation: 1e-5, 35.5E+8, 0.01e19
         if (m_position.has_more() && (std::tolower(*m_position) == 'e')) {
+          const auto e_pos = m_position;
           ++m_position;
           if (m_position.has_more() && ((*m_position == '-') || (*m_position == '+'))) {
             ++m_position;
@@ -605,7 +606,8 @@ namespace chaiscript {
             ++m_position;
           }
           if (m_position == exponent_pos) {
-            // Require at least one digit after the exponent
+            // Require at least one digit after the exponent: the 'e' is not part of the number
+            m_position = e_pos;
             return false;
           }
         }
@@ -635,8 +637,9 @@ namespace chaiscript {
                 ++m_position;
               }
 
-              // After any decimal digits, support an optional exponent (3.7e3)
-              return read_exponent_and_suffix();
+              // After any decimal digits, support an optional exponent (3.7e3); without one the number ends here
+              read_exponent_and_suffix();
+              return true;
             } else {
               --m_position;
             }
